@@ -38,6 +38,13 @@ def crash_cases(tier, rng):
             cases.append({"program": p, "mode": rng.choice(["binary", "text"]), "kill": None, "sleep": 0.0005,
                           "ext_kill_after_s": rng.choice([0.15, 0.2, 0.25, 0.3]) + rng.random() * 0.08})
         cases.append({"program": p, "mode": "binary", "kill": None})
+    # a worker process that only continues tasks started elsewhere: several unfinished tasks whose root start is not in this file
+    foreign = {"ops": [{"op": "ForeignContinue", "c": 1, "k": 1}, {"op": "ForeignContinue", "c": 1, "k": 2}, {"op": "Enter", "c": 1, "kind": "with", "a": 1},
+                       {"op": "Log", "c": 1, "ty": "m"}, {"op": "Enter", "c": 1, "kind": "with", "a": 2}, {"op": "Log", "c": 1, "ty": "m"},
+                       {"op": "StartAction", "c": 1, "ty": "A"}, {"op": "Exit", "c": 1, "o": "ok", "kind": "with"}, {"op": "Log", "c": 1, "ty": "m"},
+                       {"op": "Exit", "c": 1, "o": "exc", "kind": "with"}, {"op": "Log", "c": 1, "ty": "m"}], "wit": 3, "collide": False}
+    for n in range(2, 10):
+        cases.append({"program": foreign, "mode": rng.choice(["binary", "text"]), "kill": [n, rng.choice(PHASES)]})
     return cases
 
 
@@ -118,6 +125,23 @@ def run(prop, tier):
         killed = judge(rep, cases, res, {"C11", "C10"}, {"C11"})
         if killed < len(cases) // 4:
             raise MachineryFailure("only %d of %d children were killed: kill points are not being reached" % (killed, len(cases)))
+        # several threads: no logging call may return before its own line has been flushed (else a crash loses an acknowledged message)
+        import engine_conc
+        scs = [{"kind": "filedest", "threads": {"T1": [1, 2], "T2": [3, 4]}, "text": text, "max_pre": 2, "cap": 120 if tier == "quick" else 3000,
+                "random": 30 if tier == "quick" else 500, "seed": SEED, "budget_s": 60} for text in (False, True)]
+        results = engine_conc.run_scenarios(scs)
+        hs = [(r_["scenario"], h) for r_ in results for h in r_["runs"]]
+        acc, st = engine_conc.tlc_accepts("FileConcA", "FileConcA.cfg", [h for _, h in hs])
+        rep.cov["states"] += st
+        rep.cov["transitions"] += st
+        for (sc, h), a in zip(hs, acc):
+            rep.cov["traces_validated_against_impl"] += 1
+            rep.count_case(["flush-per-call", sc["text"], h["schedule"]], True)
+            if a is None:
+                raise MachineryFailure("no verdict for a file-call history")
+            if a[2] in ("write_without_flush", "unterminated_line"):
+                rep.violation("with two threads logging, a call returned although its line had not been flushed by it (%s): a crash now loses an acknowledged message" % a[2],
+                              {"engine": "conc", "module": "checks_c16", "scenario": sc, "schedule": h["schedule"], "writes": h["ev"]})
         rep.sample({"case": {"ops": cases[0]["program"]["ops"], "mode": cases[0]["mode"], "kill": cases[0]["kill"]},
                     "pipe_events": res["file_traces"][0]["ev"], "complete_lines": res["file_traces"][0]["complete"],
                     "fragment": res["file_traces"][0]["fragment"]})
